@@ -20,6 +20,7 @@ import (
 	"strings"
 	"time"
 
+	"github.com/btcsuite/btcd/btcec/v2"
 	"github.com/btcsuite/btcd/btcutil"
 	"github.com/btcsuite/btcd/chaincfg"
 	"github.com/btcsuite/btcd/chaincfg/chainhash"
@@ -1095,6 +1096,20 @@ func (c *simChain) CreateCsvSpendingTransaction(p *swap.OpeningParams, cp *swap.
 	return c.spend("csv", p, cp)
 }
 func (c *simChain) CreateCoopSpendingTransaction(p *swap.OpeningParams, cp *swap.ClaimParams, takerSigner swap.Signer) (string, string, string, error) {
+	// like the real wallets: the taker's signature must verify against the taker pubkey of the script
+	if takerSigner != nil && !c.w.dead {
+		h := sha256.Sum256([]byte("coop-sighash"))
+		sig, err := takerSigner.Sign(h[:])
+		pkb, err2 := hex.DecodeString(p.TakerPubkey)
+		if err != nil || err2 != nil {
+			return "", "", "", errors.New("sim wallet: cannot sign coop spend")
+		}
+		pk, err := btcec.ParsePubKey(pkb)
+		if err != nil || !sig.Verify(h[:], pk) {
+			c.w.note(Obs{Kind: "coopfail", A: map[string]string{"chain": c.name}})
+			return "", "", "", errors.New("sim wallet: taker signature does not satisfy the opening script")
+		}
+	}
 	return c.spend("coop", p, cp)
 }
 func (c *simChain) GetOutputScript(p *swap.OpeningParams) ([]byte, error) {
